@@ -2,3 +2,6 @@ NA = {}
 claim("C09", "exploration", "runtime monitor: elapsed-time reference timer vs real Timer under a virtual clock module",
       "The real Timer is driven through seeded start/stop/restart/timeout/advance/wall-step/read sequences with pynetdicom.timer.time replaced by a virtual clock; every read is compared with an elapsed-time reference. Held on the sequences observed (thousands per run, incl. wall steps of both signs while running and the exact-timeout boundary).",
       "Trusts the 20-line reference timer and that Timer reads time only via the `time` name in pynetdicom.timer.")
+claim("C01", "exploration", "runtime monitor: independent PS3.8 reference codec (encoder, structural walker, decoder) vs the bytes/objects/primitives the real PDU classes produce",
+      "Seeded abstract PDU values of all 7 types are built through the real primitives and PDU classes; their bytes must equal the reference encoder's, every length field is re-walked, decode(encode(x))==x, the reference decodes pynetdicom's bytes to the same value, and primitive->PDU->bytes->PDU->primitive preserves every parameter. Reference bytes (incl. multiplicities the setters cannot build) are also fed to the decoders. Held on the values observed.",
+      "Trusts vlib/ps38.py (self-tested against the repo's captured PDUs); values the public setters refuse are skipped and counted.")
